@@ -3,9 +3,9 @@ CONSTANTS
   P = 2
   EP = 2
   G = 1
-  MaxSlot = 13
-  StartSlots = {0, 3}
-  Mode = "design"
+  MaxSlot = 5
+  StartSlots = {2}
+  Mode = "schederr"
   RecMax = 2
   RecKeep = 1
   RootKeep = 2
@@ -13,7 +13,7 @@ CONSTANTS
   KRoots = 4
   KBids = 4
   Menu = {{}, {0}, {0, 1}}
-  Moods = {"quiet", "plain", "reorg"}
+  Moods = {"plain", "reorg"}
   MaxReorgs = 2
   MsgLates = {0}
   AucLates = {0}
@@ -21,8 +21,8 @@ CONSTANTS
   AttLates = {0}
   MaxHeld = 1
   MaxPasses = 1
-  MaxHeads = 1
-  HoldKinds = {"refresh"}
+  MaxHeads = 2
+  HoldKinds = {"start", "prepare", "refresh"}
   Fams = {"att"}
-INVARIANTS NeverReschedOverRunning
+INVARIANTS TypeOK RunningLeftTable PendingExact
 CHECK_DEADLOCK FALSE
